@@ -94,6 +94,21 @@ CHECKS["C10"] = dict(
          "models (timed wait on the stop flag = timeout elapsed), VM semantics (native replay), z3.",
 )
 
+CHECKS["C17"] = dict(
+    engine="sbvm-t",
+    technique="bounded model checking (z3): the real DelayedQueue bytecode executed symbolically by producer/consumer/"
+              "remover/closer threads under a step-indexed symbolic scheduler and a symbolic clock",
+    level=("model_checking",
+           "All interleavings (at the scheduling points of DESIGN.md 4.3) of a producer (2-3 puts with symbolic delay "
+           "flags), a consumer, a remover with a symbolic target and/or a closer, for all clock readings, within K "
+           "steps (an unwinding query shows K suffices): FIFO, never early, no loss, no duplicate over get/remove, "
+           "removed head not returned, close() unblocks, no deadlock.", "DESIGN.md section 9, C17"),
+    note="Trusted: the lock/condition/thread/clock models (no spurious wake-ups), the mover reduction (only lock "
+         "acquisitions, wait/sleep resumptions, joins and accesses to the unprotected _closed flag are scheduling "
+         "points), z3. Counterexamples are re-executed deterministically in the VM under the found schedule (native "
+         "forced-schedule replay is not implemented).",
+)
+
 NOT_YET = "check not built yet (work in progress; see DESIGN.md section 11 for the order)"
 NA = {}
 
@@ -128,8 +143,10 @@ def main():
             "add_only": True,
         },
         "engines": [
-            {"name": "sbvm", "path": "/verif/vf", "serves_properties": sorted(CHECKS),
+            {"name": "sbvm", "path": "/verif/vf", "serves_properties": sorted(k for k, c in CHECKS.items() if c["engine"].startswith("sbvm") and c["engine"] != "sbvm-t"),
              "kind_free_text": SBVM},
+            {"name": "sbvm-t", "path": "/verif/vf/conc.py", "serves_properties": sorted(k for k, c in CHECKS.items() if c["engine"] == "sbvm-t"),
+             "kind_free_text": "SBVM plus threads: step-indexed symbolic scheduler and clock (bounded model checking with z3)"},
         ],
         "checks": checks,
         "notes": "Solver-based checking of the real code; see DESIGN.md. Exit codes: 0 pass, 1 VIOLATION, 2 INCONCLUSIVE.",
